@@ -5,6 +5,9 @@ package main
 
 import (
 	"fmt"
+	"go/token"
+	"go/types"
+	"sort"
 	"strings"
 
 	"golang.org/x/tools/go/ssa"
@@ -16,6 +19,10 @@ type scanResult struct {
 	GlobalWrites []string `json:"global_writes_outside_init"`
 	GoStmts      []string `json:"go_statements"`
 	SyncUses     []string `json:"sync_uses"`
+	// uses of sync that the C16 argument does not cover (anything but sync.Map methods on scalar payloads and
+	// sync.Once.Do whose initialised variables are only accessed after a dominating Do of the same Once)
+	SyncUnmodelled []string `json:"sync_uses_outside_the_c16_argument"`
+	OnceGuarded    []string `json:"once_initialised_globals"`
 }
 
 func rootGlobal(v ssa.Value) *ssa.Global {
@@ -65,11 +72,180 @@ func (w *World) staticScan() scanResult {
 						p := c.Pkg.Pkg.Path()
 						if p == "sync" || p == "sync/atomic" {
 							r.SyncUses = append(r.SyncUses, where+": "+c.String())
+							switch c.String() {
+							case "(*sync.Map).Load", "(*sync.Map).Store", "(*sync.Map).LoadOrStore", "(*sync.Map).Delete", "(*sync.Map).Range", "(*sync.Once).Do":
+							default:
+								r.SyncUnmodelled = append(r.SyncUnmodelled, where+": "+c.String())
+							}
+							if c.String() == "(*sync.Map).Store" || c.String() == "(*sync.Map).LoadOrStore" {
+								if mi, ok := x.Common().Args[2].(*ssa.MakeInterface); ok && !scalarType(mi.X.Type()) {
+									r.SyncUnmodelled = append(r.SyncUnmodelled, where+": sync.Map value of type "+mi.X.Type().String()+" (shared mutable payload)")
+								}
+							}
 						}
 					}
 				}
 			}
 		}
 	}
+	w.scanOnce(&r)
 	return r
+}
+
+func scalarType(t types.Type) bool {
+	switch u := t.Underlying().(type) {
+	case *types.Basic:
+		return true
+	case *types.Struct:
+		for i := 0; i < u.NumFields(); i++ {
+			if !scalarType(u.Field(i).Type()) {
+				return false
+			}
+		}
+		return true
+	}
+	return false
+}
+
+// scanOnce: for every sync.Once.Do(f) on a package-level Once, the package-level variables f stores to may
+// only be accessed (outside f and the package initialisers) after a dominating Do of the same Once.
+func (w *World) scanOnce(r *scanResult) {
+	type onceInfo struct {
+		fns  map[*ssa.Function]bool
+		vars map[*ssa.Global]bool
+	}
+	onces := map[*ssa.Global]*onceInfo{}
+	inModule := func(fn *ssa.Function) bool {
+		if fn.Pkg == nil || !strings.HasPrefix(fn.Pkg.Pkg.Path(), modulePath) || strings.Contains(fn.Pkg.Pkg.Path(), "/internal/zz") {
+			return false
+		}
+		return !strings.Contains(w.prog.Fset.Position(fn.Pos()).Filename, "zz_verif_")
+	}
+	onceCall := func(ins ssa.Instruction) (*ssa.Global, ssa.Value) {
+		c, ok := ins.(*ssa.Call)
+		if !ok {
+			return nil, nil
+		}
+		if f := c.Common().StaticCallee(); f == nil || f.String() != "(*sync.Once).Do" {
+			return nil, nil
+		}
+		return rootGlobal(c.Common().Args[0]), c.Common().Args[1]
+	}
+	all := ssautil.AllFunctions(w.prog)
+	for fn := range all {
+		if !inModule(fn) {
+			continue
+		}
+		for _, b := range fn.Blocks {
+			for _, ins := range b.Instrs {
+				og, fv := onceCall(ins)
+				if fv == nil {
+					continue
+				}
+				where := w.prog.Fset.Position(ins.Pos()).String()
+				if og == nil {
+					r.SyncUnmodelled = append(r.SyncUnmodelled, where+": sync.Once that is not a package-level variable")
+					continue
+				}
+				var body *ssa.Function
+				switch f := fv.(type) {
+				case *ssa.Function:
+					body = f
+				case *ssa.MakeClosure:
+					body, _ = f.Fn.(*ssa.Function)
+				}
+				if body == nil {
+					r.SyncUnmodelled = append(r.SyncUnmodelled, where+": sync.Once.Do with a dynamic function value")
+					continue
+				}
+				oi := onces[og]
+				if oi == nil {
+					oi = &onceInfo{fns: map[*ssa.Function]bool{}, vars: map[*ssa.Global]bool{}}
+					onces[og] = oi
+				}
+				// the body and the module functions it calls statically (one level)
+				todo := []*ssa.Function{body}
+				for _, bb := range body.Blocks {
+					for _, bi := range bb.Instrs {
+						if c, ok := bi.(*ssa.Call); ok {
+							if f := c.Common().StaticCallee(); f != nil && inModule(f) {
+								todo = append(todo, f)
+							}
+						}
+					}
+				}
+				for _, f := range todo {
+					oi.fns[f] = true
+					for _, bb := range f.Blocks {
+						for _, bi := range bb.Instrs {
+							switch x := bi.(type) {
+							case *ssa.Store:
+								if g := rootGlobal(x.Addr); g != nil {
+									oi.vars[g] = true
+								}
+							case *ssa.MapUpdate:
+								if g := rootGlobal(x.Map); g != nil {
+									oi.vars[g] = true
+								}
+							}
+						}
+					}
+				}
+			}
+		}
+	}
+	for og, oi := range onces {
+		for v := range oi.vars {
+			r.OnceGuarded = append(r.OnceGuarded, v.Name()+" (under "+og.Name()+")")
+		}
+		for fn := range all {
+			if !inModule(fn) || oi.fns[fn] || fn.Name() == "init" || strings.HasPrefix(fn.Name(), "init#") {
+				continue
+			}
+			// positions of the Do calls of this Once in fn
+			type pos struct {
+				b *ssa.BasicBlock
+				i int
+			}
+			var dos []pos
+			for _, b := range fn.Blocks {
+				for i, ins := range b.Instrs {
+					if g, fv := onceCall(ins); fv != nil && g == og {
+						dos = append(dos, pos{b, i})
+					}
+				}
+			}
+			for _, b := range fn.Blocks {
+				for i, ins := range b.Instrs {
+					var g *ssa.Global
+					switch x := ins.(type) {
+					case *ssa.UnOp:
+						if x.Op == token.MUL {
+							g = rootGlobal(x.X)
+						}
+					case *ssa.Store:
+						g = rootGlobal(x.Addr)
+					case *ssa.MapUpdate:
+						g = rootGlobal(x.Map)
+					case *ssa.Lookup:
+						g = rootGlobal(x.X)
+					}
+					if g == nil || !oi.vars[g] {
+						continue
+					}
+					ok := false
+					for _, d := range dos {
+						if (d.b == b && d.i < i) || (d.b != b && d.b.Dominates(b)) {
+							ok = true
+						}
+					}
+					if !ok {
+						r.SyncUnmodelled = append(r.SyncUnmodelled, fmt.Sprintf("%s: %s is initialised under %s.Do but accessed here without a dominating Do", w.prog.Fset.Position(ins.Pos()), g.Name(), og.Name()))
+					}
+				}
+			}
+		}
+	}
+	sort.Strings(r.OnceGuarded)
+	sort.Strings(r.SyncUnmodelled)
 }
